@@ -8,6 +8,9 @@ NOTE = ("Trusted: go/types + go/ssa (x/tools v0.29.0), VTA call-graph soundness 
         "one-DB-per-transaction lock identity. The check decides the named structural clauses (necessary conditions), not the whole behaviour; see DESIGN.md §4 for what is not decided.")
 
 CLAIMED = {
+ "C06": ("write offsets derive only from ids of pages in tx.pages (filled only by tx.allocate from db.allocate: freelist.Allocate or the high-water mark), free-set entry chain (Free makes pages pending only; mergeSpans/Init only from the release / reload paths) under VTA and CHA, frees and rollbacks under the writer's own txid, free-before-allocate in spill, meta slot, file-writer allow-list", "4 C06"),
+ "C08": ("every error exit of Commit passes the physical rollback (directly or through commitFreelist's summary), shape of rollback (freelist.Rollback, reload from the committed state chosen by hasSyncedFreelist, close), db.allocate has no error exit after an effect and raises the size-limit error first, no I/O error dropped, no rollback after the meta write was issued (one known finding, demonstrated at runtime in findings/F5)", "4 C08"),
+ "C17": ("lock request per GOOS tabulated over exclusive/outcome (exclusive iff read-write, non-blocking, retry until timeout), lock-before-content and flag selection in Open, read-only refuses writers before any state change and never reaches a file writer, read-only mapping protection constants on every GOOS, close always closes the descriptor and Close takes all three locks, CLI inspection commands open ReadOnly", "4 C17"),
  "C01": ("write-ahead shape of commit on every path (pages, barrier, meta, barrier), file-writer allow-list, I/O error discipline, meta slot = txid%2 with checksum after the last store, db.meta() decision table", "4 C01"),
 }
 
